@@ -24,6 +24,12 @@ def coq_like(e):
 def gen_filter(rnd):
     r = rnd.random()
     c1, s0 = jg.jcol("c1"), jg.jcol("s0")
+    if rnd.random() < 0.15:
+        # a filter on the model's KEY (or its foreign key) only: 99 is the dangling foreign-key value of the generated data, so a row of the
+        # filtered model with key 99 does not exist and nothing may be "connected" to it
+        k = rnd.choice([jg.jcol("id"), jg.jcol("id"), jg.jcol("fk_a")])
+        return rnd.choice([("in", k, [rnd.choice([1, 2, 3]), 99]), ("cmp", "=", k, sg.lit(99)), ("cmp", ">=", k, sg.lit(rnd.choice([1, 2]))),
+                           ("cmp", "<>", k, sg.lit(rnd.choice([1, 2]))), ("between", k, sg.lit(2), sg.lit(99))])
     if r < 0.2:
         return ("cmp", rnd.choice(["=", "<>", "<", ">="]), s0, sg.lit(rnd.choice(STRS)))
     if r < 0.4:
@@ -84,6 +90,30 @@ def gen_case(rnd):
     return f, q
 
 
+def gen_key_case(rnd):
+    """targeted family: a filter (or segment) that mentions only the KEY of a model the rest of the query does not need, next to
+    rows of the metric model whose foreign key is dangling (value 99, no row on the other side) or NULL.  The filter restricts the
+    metric to rows CONNECTED to a row satisfying it -- a dangling row is connected to nothing, whatever its key value."""
+    for _ in range(50):
+        f = jg.gen_forest(rnd, nmodels=rnd.randint(2, 3))
+        links = [(c, p) for (c, p, ty, comp) in f["links"] if not comp and len(f["models"][c]["rows"]) >= 2 and f["models"][p]["rows"]]
+        if not links:
+            continue
+        c, p = rnd.choice(links)
+        child, parent = f["models"][c], f["models"][p]
+        rows = child["rows"]
+        rows[0][jg.CI["fk_a"]], rows[0][jg.CI["fk_b"]] = 99, "k99"                    # dangling
+        rows[1][jg.CI["fk_a"]], rows[1][jg.CI["fk_b"]] = parent["rows"][0][0], parent["rows"][0][1]
+        k = jg.jcol("id")
+        flt = rnd.choice([("in", k, [parent["rows"][0][0], 99]), ("cmp", "=", k, sg.lit(99)), ("cmp", ">=", k, sg.lit(1)), ("cmp", "<>", k, sg.lit(parent["rows"][0][0])),
+                          ("between", k, sg.lit(1), sg.lit(99)), ("not", ("cmp", "=", k, sg.lit(parent["rows"][0][0])))])
+        q = dict(dims=[(child["name"], jg.jcol("s0"))] if rnd.random() < 0.5 else [],
+                 mets=[(child["name"], rnd.choice(["sum", "count", "max"]), jg.jcol("c0"), []), (child["name"], "count", None, [])],
+                 filters=[(parent["name"], flt)])
+        return f, q
+    return gen_case(rnd)
+
+
 def run_variant(f, q, variant):
     """execute the query with its filters written in one of several equivalent ways; returns sorted canonical rows"""
     from sidemantic.core.segment import Segment
@@ -119,7 +149,7 @@ def run(c):
                   "metamorphic relations are checked on the implementation alone (no model involved)"]
     c.build_props()
     n = 120 if c.tier == "quick" else 1500
-    cases = [gen_case(c.rng) for _ in range(n)]
+    cases = [gen_case(c.rng) for _ in range(n)] + [gen_key_case(c.rng) for _ in range(n // 6)]
     outs = None
     if lib.coq_make(["Proofs/C02_proofs.vo", "Model/Plan.vo"])[0]:
         try:
